@@ -74,6 +74,22 @@ def true_chars(b):
     return res
 
 
+STD_CHAR_CLASSES = {
+    # std predicate (last path segment) → the code points it accepts, as documented by std
+    "is_ascii_control": set(range(32)) | {127},
+    "is_control": set(range(32)) | set(range(127, 160)),          # general category Cc
+}
+
+
+def _std_char_classes(b):
+    out = set()
+    for _, t in b.calls():
+        last = (t.best_callee() or t.callee or "").rsplit("::", 1)[-1]
+        if last in STD_CHAR_CLASSES and "char" in (t.best_callee() or t.callee or ""):
+            out |= {chr(i) for i in STD_CHAR_CLASSES[last]}
+    return out
+
+
 def run(prog, chk):
     chk.explanation = (
         "TABLE: the character classes that select a quoting style are extracted from the SwitchInt tables of "
@@ -96,11 +112,7 @@ def run(prog, chk):
         nac = prog.body(ESC + "needs_ansi_c_quoting")
         controls = set()
         if chk.anchor("R13.1", ESC + "needs_ansi_c_quoting", nac):
-            if call_sites(nac, {"char::is_ascii_control", "core::char::methods::<impl char>::is_ascii_control"}, by_suffix=False) or \
-                    any((t.callee or "").endswith("is_ascii_control") for _, t in nac.calls()):
-                controls = {chr(i) for i in range(32)} | {chr(127)}
-            else:
-                controls = true_chars(nac)
+            controls = true_chars(nac) | _std_char_classes(nac)
             # quote() must consult it
         for ch, why in sorted(READER_SPECIAL.items()):
             if ch in got or ch in controls:
@@ -153,6 +165,26 @@ def run(prog, chk):
             chk.fail("R13.1", aq.name, "ansi-c-escapes", "ansi_c_quote misses %s or no octal fallback for other controls (%s)" % (sorted(miss), falls_back))
         else:
             chk.ok("R13.1", "ansi-c-escapes", "\\ and ' escaped; other controls through the octal fallback", function=aq.name)
+    if aq is not None:
+        # the numeric fallback must be able to represent every character that is routed to it: `c as u8` keeps one byte
+        dd = defs_of(aq)
+        narrow = []
+        for bl in aq.blocks:
+            for st in bl.stmts:
+                if st.kind == 'a' and st.rv.kind == 'cast' and st.rv.raw.get("ck") == "IntToInt" and aq.local_ty(st.place.local) in ("u8", "i8") \
+                        and st.rv.ops and st.rv.ops[0].place is not None and aq.local_ty(st.rv.ops[0].place.local) == "char":
+                    narrow.append((bl.idx, st))
+        sel = controls if nac is not None else set()
+        wide = sorted(c for c in sel if ord(c) > 0x7f)
+        if narrow and wide:
+            chk.fail("R13.1", aq.name, "octal-escape-truncates",
+                     "ansi_c_quote narrows the character to one byte (`c as u8`, line %s) but needs_ansi_c_quoting also selects %d characters above "
+                     "U+007F (U+%04X…): their escape is a single byte that is not the character's UTF-8 encoding, so the value does not re-read"
+                     % (narrow[0][1].line if hasattr(narrow[0][1], "line") else "?", len(wide), ord(wide[0])))
+        elif narrow:
+            chk.ok("R13.1", "octal-escape-exact", "`c as u8` is applied only to characters <= U+007F (the selecting predicate accepts %d characters, all ASCII)" % len(sel), function=aq.name)
+        else:
+            chk.ok("R13.1", "octal-escape-no-narrowing", "no char→u8 narrowing in ansi_c_quote", nontrivial=False, function=aq.name)
     sq = prog.body(ESC + "single_quote")
     if chk.anchor("R13.1", ESC + "single_quote", sq):
         d = defs_of(sq)
